@@ -29,6 +29,7 @@ import (
 	"math/big"
 	"math/rand"
 	"os"
+	"path/filepath"
 	"regexp"
 	"sort"
 	"strings"
@@ -664,6 +665,36 @@ func phaseHistory(t *testing.T, e *env, rng *rand.Rand, out *hx.Out) {
 	e15 := big.NewInt(1e15)
 	seqs := hx.N(30, 240)
 	opsPer := hx.N(40, 60)
+	// corpus/C10/*.ops: witness histories (the `h …` lines of a replay file), each replayed first as its own sequence
+	var corpus [][]string
+	if dir := os.Getenv("VERIF_CORPUS"); dir != "" {
+		files, _ := filepath.Glob(filepath.Join(dir, "*.ops"))
+		sort.Strings(files)
+		for _, f := range files {
+			var hs []string
+			for _, l := range hx.ReadLines(f) {
+				if strings.HasPrefix(l, "h ") {
+					hs = append(hs, l)
+				}
+			}
+			if len(hs) > 0 {
+				corpus = append(corpus, hs)
+			}
+		}
+	}
+	if rp := hx.ReplayFile(); rp != "" {
+		var hs []string
+		for _, l := range hx.ReadLines(rp) {
+			if strings.HasPrefix(l, "h ") {
+				hs = append(hs, l)
+			}
+		}
+		if len(hs) > 0 {
+			corpus = append([][]string{hs}, corpus...)
+		}
+	}
+	out.Stats.Extra["corpus_sequences"] = len(corpus)
+	seqs += len(corpus)
 	for sq := 0; sq < seqs; sq++ {
 		cctx, _ := e.s.Ctx.CacheContext()
 		out.Reset()
@@ -684,7 +715,11 @@ func phaseHistory(t *testing.T, e *env, rng *rand.Rand, out *hx.Out) {
 		spent := map[pair]*big.Int{}
 		undelegations := map[int]int{}
 		var lastApproved *pair
-		for k := 0; k < opsPer; k++ {
+		nOps := opsPer
+		if sq < len(corpus) {
+			nOps = len(corpus[sq])
+		}
+		for k := 0; k < nOps; k++ {
 			rt := routes[rng.Intn(len(routes))]
 			caller := byID[rt.caller]
 			kind := evmx.KCall
@@ -717,8 +752,83 @@ func phaseHistory(t *testing.T, e *env, rng *rand.Rand, out *hx.Out) {
 			var approveSp int
 			var approveAmt *big.Int
 			roll := rng.Intn(100)
+			var entries []string
+			scripted := sq < len(corpus)
+			if scripted {
+				// h <kind> <caller> <origin> <addr> <mid> <entries|-> <method> <args…>
+				f := strings.Fields(corpus[sq][k])
+				if len(f) < 8 {
+					t.Fatalf("corpus line: %q", corpus[sq][k])
+				}
+				kind = map[string]evmx.Kind{"call": evmx.KCall, "staticcall": evmx.KStatic, "delegatecall": evmx.KDelegate, "callcode": evmx.KCallCode}[f[1]]
+				found := false
+				for _, r := range routes {
+					if fmt.Sprint(r.caller) == f[2] && fmt.Sprint(r.origin) == f[3] {
+						rt, found = r, true
+					}
+				}
+				if !found {
+					t.Fatalf("corpus line: no route for caller %s origin %s", f[2], f[3])
+				}
+				caller = byID[rt.caller]
+				if f[6] != "-" {
+					entries = strings.Split(f[6], ",")
+				}
+				method = f[7]
+				args := f[8:]
+				num := func(i int) *big.Int {
+					if i >= len(args) {
+						t.Fatalf("corpus line: missing argument: %q", corpus[sq][k])
+					}
+					n, ok := new(big.Int).SetString(args[i], 10)
+					if !ok {
+						t.Fatalf("corpus line: bad number %q", args[i])
+					}
+					return n
+				}
+				acc := func(i int) int {
+					n := int(num(i).Int64())
+					if _, ok := byID[n]; !ok {
+						t.Fatalf("corpus line: bad account %d", n)
+					}
+					return n
+				}
+				argStr = strings.Join(args, " ")
+				switch method {
+				case "approveShares":
+					approveSp, approveAmt = acc(0), num(1)
+					data, _ = sabi.Pack(method, v0, byID[approveSp].addr, approveAmt)
+				case "transferFromShares":
+					tfsFrom, tfsAmt = acc(0), num(2)
+					data, _ = sabi.Pack(method, v0, byID[tfsFrom].addr, byID[acc(1)].addr, tfsAmt)
+				case "transferShares":
+					data, _ = sabi.Pack(method, v0, byID[acc(0)].addr, num(1))
+				case "delegateV2", "undelegateV2":
+					data, _ = sabi.Pack(method, v0, num(0))
+				case "withdraw":
+					data, _ = sabi.Pack(method, v0)
+				case "cancelSendToExternal":
+					to = e.cross
+					data, _ = cabi.Pack(method, ethtypes.ModuleName, num(0))
+				case "increaseBridgeFee":
+					to = e.cross
+					value = num(1)
+					data, _ = cabi.Pack(method, ethtypes.ModuleName, num(0), common.Address{}, value)
+				case "view":
+					if argStr == "allowanceShares" {
+						data, _ = sabi.Pack("allowanceShares", v0, byID[4].addr, byID[1].addr)
+					} else {
+						argStr = "delegation"
+						data, _ = sabi.Pack("delegation", v0, byID[4].addr)
+					}
+				default:
+					t.Fatalf("corpus line: unknown method %q", method)
+				}
+				roll = -1
+				out.Count("hist:corpus-op")
+			}
 			// after an approval, prefer the spender's transferFromShares for that pair
-			if lastApproved != nil && rng.Intn(3) != 0 {
+			if !scripted && lastApproved != nil && rng.Intn(3) != 0 {
 				var cands []route
 				for _, r := range routes {
 					if r.caller == lastApproved.s {
@@ -735,6 +845,7 @@ func phaseHistory(t *testing.T, e *env, rng *rand.Rand, out *hx.Out) {
 				}
 			}
 			switch {
+			case roll < 0: // scripted
 			case roll < 25:
 				method = "approveShares"
 				approveSp = 1 + rng.Intn(5)
@@ -857,8 +968,7 @@ func phaseHistory(t *testing.T, e *env, rng *rand.Rand, out *hx.Out) {
 			lastApproved = nil
 			mid := hex.EncodeToString(data[:4])
 			// governance list: mostly none
-			var entries []string
-			if rng.Intn(8) == 0 {
+			if !scripted && rng.Intn(8) == 0 {
 				oa, om := e.cross, otherMids(stakingMids, mid)
 				if to == e.cross {
 					oa, om = e.staking, otherMids(crossMids, mid)
